@@ -360,7 +360,18 @@ func (c *Canon) render(v ssa.Value, d int) string {
 	case *ssa.Next:
 		return "next(" + c.termD(v.Iter, d+1) + ")"
 	case *ssa.Select:
-		return "select"
+		var sts []string
+		for _, st := range v.States {
+			dir := "<-"
+			if st.Dir == types.SendOnly {
+				dir = "->"
+			}
+			sts = append(sts, dir+c.termD(st.Chan, d+1))
+		}
+		if !v.Blocking {
+			sts = append(sts, "default")
+		}
+		return "select[" + strings.Join(sts, ",") + "]"
 	}
 	return fmt.Sprintf("?%T", v)
 }
